@@ -58,6 +58,8 @@ Ltac fold_closed :=
           | |- context [Z.opp ?a] => closedZ a; let r := eval vm_compute in (Z.opp a) in change (Z.opp a) with r
           | |- context [Z.of_N N0] => change (Z.of_N N0) with Z0
           | |- context [Z.of_N (Npos ?p)] => closedP p; change (Z.of_N (Npos p)) with (Zpos p)
+          | |- context [Z.to_N Z0] => change (Z.to_N Z0) with N0
+          | |- context [Z.to_N (Zpos ?p)] => closedP p; change (Z.to_N (Zpos p)) with (Npos p)
           | |- context [N.to_nat (Npos ?p)] =>
             closedP p; let r := eval vm_compute in (N.to_nat (Npos p)) in change (N.to_nat (Npos p)) with r
           end)).
@@ -127,14 +129,115 @@ Section Bridge.
     rewrite app_length, firstn_length, Hu. reflexivity.
   Qed.
 
-  (* ---------------------------------------------------------------- pre_wholeblock *)
+
   Lemma pre_whole_eq s inp bl : bytectr s + bl < two64 ->
     pre_whole s inp bl = Ok (Ref.pre_whole s inp bl).
   Proof.
     intros Hb. unfold pre_whole, Ref.pre_whole, two64 in *.
     destruct (bytectr s mod 16 =? 0) eqn:Hm; cbn [negb];
-      [|destruct (bytectr s mod 16 + bl <=? 16) eqn:Hfit];
-      evaluate; rewrite ?nonzero_b2z; repeat decide_if; ev; fold_closed; guards; try reflexivity.
-    Show.
+      [|destruct (bytectr s mod 16 + bl <=? 16) eqn:Hfit].
+    all: evaluate; rewrite ?nonzero_b2z; repeat decide_if; ev; fold_closed; guards; try reflexivity.
+    all: rewrite use_eq by (unfold two64; lia); cbn [bind]; repeat f_equal; lia.
+  Qed.
+
+  Lemma Ref_pre_whole_binv s inp bl : binv s bl ->
+    let '(s1, _, _, bl1, _) := Ref.pre_whole s inp bl in binv s1 bl1.
+  Proof.
+    intros [Hb Hp]. unfold Ref.pre_whole, Ref.use, binv, two64 in *.
+    destruct (negb (bytectr s mod 16 =? 0)); [destruct (bytectr s mod 16 + bl <=? 16) eqn:Hf|];
+      cbn [bytectr pblk]; (split; [lia | exact Hp]).
+  Qed.
+
+  (* ---------------------------------------------------------------- the portable whole-block loop *)
+  Lemma whole_eq : forall fuel s inp bl, binv s bl ->
+    whole E fuel s inp bl = Ref.whole E fuel s inp bl.
+  Proof.
+    induction fuel as [|fuel IH]; intros s inp bl Hinv; pose proof Hinv as [Hb Hp];
+      cbn [whole Ref.whole]; unfold two64 in *.
+    - destruct (16 <=? bl) eqn:Hge; evaluate; rewrite ?nonzero_b2z; repeat decide_if; guards; reflexivity.
+    - destruct (16 <=? bl) eqn:Hge; evaluate; rewrite ?nonzero_b2z; repeat decide_if; guards; [|reflexivity].
+      rewrite generate_eq by (unfold two64; first [lia | assumption]).
+      destruct (Ref.generate E s) as [s1| | |] eqn:Hg; cbn [bind]; try reflexivity.
+      pose proof (Ref_generate_binv s s1 bl Hg Hinv) as Hinv1.
+      rewrite use_eq by (unfold two64; lia). cbn [bind].
+      pose proof (Ref_use_binv s1 inp bl 16 0 ltac:(lia) Hinv1) as Hinv2.
+      destruct (Ref.use s1 inp bl 16 0) as [[[s2 o] rest] bl0].
+      rewrite (IH s2 rest bl0 Hinv2). reflexivity.
+  Qed.
+
+  Lemma Ref_whole_binv : forall fuel s inp bl s' o rest bl',
+    Ref.whole E fuel s inp bl = Ok (s', o, rest, bl') -> binv s bl -> binv s' bl'.
+  Proof.
+    induction fuel as [|fuel IH]; intros s inp bl s' o rest bl' H Hinv; cbn [Ref.whole] in H.
+    - destruct (16 <=? bl); [discriminate|]. injection H as <- _ _ <-. exact Hinv.
+    - destruct (16 <=? bl) eqn:Hge; [|injection H as <- _ _ <-; exact Hinv].
+      apply N.leb_le in Hge.
+      destruct (Ref.generate E s) as [s1| | |] eqn:Hg; cbn [bind] in H; try discriminate.
+      pose proof (Ref_generate_binv s s1 bl Hg Hinv) as Hinv1.
+      pose proof (Ref_use_binv s1 inp bl 16 0 Hge Hinv1) as Hinv2.
+      destruct (Ref.use s1 inp bl 16 0) as [[[s2 o2] rest2] bl2].
+      destruct (Ref.whole E fuel s2 rest2 bl2) as [[[[s3 o3] rest3] bl3]| | |] eqn:Hw; cbn [bind] in H; try discriminate.
+      injection H as <- _ _ <-. exact (IH _ _ _ _ _ _ _ Hw Hinv2).
+  Qed.
+
+  (* ---------------------------------------------------------------- post_wholeblock *)
+  Lemma post_whole_eq s inp bl : binv s bl ->
+    post_whole E s inp bl = Ref.post_whole E s inp bl.
+  Proof.
+    intros Hinv. pose proof Hinv as [Hb Hp]. unfold post_whole, Ref.post_whole, two64 in *.
+    destruct (0 <? bl) eqn:Hpos; evaluate; rewrite ?nonzero_b2z; repeat decide_if; guards; [|reflexivity].
+    rewrite generate_eq by (unfold two64; first [lia | assumption]).
+    destruct (Ref.generate E s) as [s1| | |] eqn:Hg; cbn [bind]; try reflexivity.
+    rewrite use_eq by (unfold two64; lia). cbn [bind].
+    replace (Z.to_N (Z.of_N bl mod 18446744073709551616)) with bl by lia.
+    reflexivity.
+  Qed.
+
+  (* ---------------------------------------------------------------- crypto_aesctr_stream, portable *)
+  Theorem stream_eq s inp : binv s (N.of_nat (length inp)) -> stream E s inp = Ref.stream E s inp.
+  Proof.
+    intros Hinv. unfold stream, Ref.stream.
+    rewrite pre_whole_eq by apply Hinv. cbn [bind].
+    pose proof (Ref_pre_whole_binv s inp _ Hinv) as Hinv1.
+    destruct (Ref.pre_whole s inp (N.of_nat (length inp))) as [[[[s1 o1] rest] bl] done].
+    destruct done; [reflexivity|].
+    rewrite (whole_eq _ s1 rest bl Hinv1).
+    destruct (Ref.whole E (length inp) s1 rest bl) as [[[[s2 o2] rest2] bl2]| | |] eqn:Hw; cbn [bind]; try reflexivity.
+    rewrite (post_whole_eq s2 rest2 bl2 (Ref_whole_binv _ _ _ _ _ _ _ _ Hw Hinv1)). reflexivity.
+  Qed.
+
+
+  (* ---------------------------------------------------------------- the AES-NI whole-block loop *)
+  (* the parts of the regenerated loop body: be64enc(arr, wb_bexpr); __m128i statements; wb_scalars *)
+  Definition wb_bexpr : cexpr := match body_parts wb_body with Some (x, _) => x | None => EUnknown end.
+  Definition wb_scalars : list cstmt := match body_parts wb_body with Some (_, l) => l | None => [SUnknown] end.
+  Lemma wb_body_shape : body_parts wb_body = Some (wb_bexpr, wb_scalars).
+  Proof. reflexivity. Qed.
+  Lemma wb_epilogue_memcpy : the_memcpy wb_epilogue = Some (8, 8).
+  Proof. reflexivity. Qed.
+
+  (* the variables of crypto_aesctr_aesni_stream_wholeblocks inside / after the loop: stream->bytectr,
+     *buflen, the two offsets, block_counter (16), num_blocks (17), i (18) *)
+  Definition wb_env (b bl io oo c nb i : N) : env :=
+    [var V_BYTECTR ty_bytectr b; var V_BUFLEN wb_ty_buflen bl; var V_INOFF U64 io; var V_OUTOFF U64 oo;
+     var 16 U64 c; var 17 U64 nb; var 18 U64 i].
+
+  Lemma skipn15_cons (inp : list N) : (16 <= length inp)%nat -> exists x r, skipn 15 inp = x :: r.
+  Proof.
+    intros H. destruct (skipn 15 inp) as [|x r] eqn:Hs; [|eauto].
+    apply (f_equal (@length N)) in Hs. rewrite skipn_length in Hs. cbn in Hs. lia.
+  Qed.
+
+  Lemma ni_loop_eq nonce : forall n fuel b bl io oo c nb inp,
+    (S n <= fuel)%nat -> (16 * S n <= length inp)%nat -> N.of_nat (S n) < two64 -> c < two64 ->
+    ni_loop E fuel nonce wb_bexpr wb_scalars (wb_env b bl io oo c nb (N.of_nat (S n))) inp =
+    let '(o, rest, c', arr) := Ref.bulk E n nonce c inp in
+    Ok (wb_env b bl 16 16 c' nb 0, o, rest, arr).
+  Proof.
+    induction n as [|n IH]; intros fuel b bl io oo c nb inp Hfuel Hlen Hn Hc;
+      (destruct fuel as [|fuel]; [lia|]); cbn [ni_loop Ref.bulk];
+      destruct (skipn15_cons inp ltac:(lia)) as (x & r & ->); unfold two64 in *.
+    - unfold wb_env, wb_bexpr, wb_scalars. evaluate.
+      Show.
   Abort.
 End Bridge.
